@@ -12,7 +12,10 @@
            -- pause zonestore.resolve.after_check --               :131
        R2  store.get(k)  (one message to the store actor)          :134
            None: answer None, done (no DHT configured)             :169-185
-           -- pause zonestore.resolve.after_get --                 :137
+           -- pause signedpacketstore.get.after_read --   signed_packets.rs, end of `get`
+              (inside store.get, taken only when a packet came back; the older pause
+               zonestore.resolve.after_get :137 is separated from it by pure code and is
+               left unarmed by the harness)
        R3  lock cache; if no invalidation since R1:                :138-142
              ZoneCache::insert (skip if cached timestamp is newer) :309-328
              answer from the cache                                 :282-291
